@@ -71,14 +71,26 @@ def o1(W, ob):
                                                             ' (unsorted Vec)' if sig.get('into') else '', ', '.join(sig.get('shared_writes', [])[:5]) or 'order of the collected sequence'),
                     where(f, s['term'].line))
     # callers of functions that return map-ordered vectors
-    reviewed = {(c['callee'], c['caller']) for c in tab['ordered_returns']}
+    reviewed = {(c['callee'], c['caller']): c for c in tab['ordered_returns']}
     n = 0
     for g in ordered_fns:
         for f, t in W.calls_to(hashorder._short(g)):
             n += 1
             k = (hashorder._short(g), hashorder._short(f))
-            ob.check(k in reviewed, '%s|uses-map-ordered|%s' % (k[1], k[0]), '%s uses the map-ordered result of %s in a reviewed, order-insensitive way' % (k[1], k[0]),
-                     '%s consumes the result of %s, a vector in HashMap order, and this use is not reviewed' % (k[1], k[0]), where(f, t.line))
+            e = reviewed.get(k)
+            if e is None:
+                ob.fail('%s|uses-map-ordered|%s' % (k[1], k[0]), '%s consumes the result of %s, a vector in HashMap order, and this use is not reviewed' % (k[1], k[0]), where(f, t.line))
+                continue
+            # the review covers what the consumer does today: its kind and, for a loop, everything the loop body writes (computed, through calls)
+            kind, chain, cons = hashorder.forward_consumer(W, f, t)
+            sw = None
+            if kind == 'for-loop':
+                sw = hashorder.loop_effects(W, f, cons, E)[0]
+            same = kind == e.get('consumer') and (sw is None or sw == e.get('shared_writes'))
+            extra = sorted(set(sw or []) - set(e.get('shared_writes') or []))
+            ob.check(same, '%s|uses-map-ordered|%s|effects' % (k[1], k[0]), '%s uses the map-ordered result of %s in a reviewed, order-insensitive way (%s)' % (k[1], k[0], kind),
+                     '%s consumes the result of %s, a vector in HashMap order, by %s, and what that does is no longer what was reviewed%s: effects applied once per element happen in an '
+                     'order that differs from run to run' % (k[1], k[0], kind, ' -- new writes in the loop body: ' + ', '.join(extra[:6]) if extra else ''), where(f, t.line))
     ob.require_count(n, 8, 'call sites of functions returning map-ordered vectors')
 
 
